@@ -610,6 +610,18 @@ pub async fn catch_up_sub(
 
     if let Some((event_buf, change_id)) = pending_event {
         info!(sub_id = %matcher.id(), "had a pending event we popped from the queue, id: {change_id:?} (last change id: {last_change_id:?})");
+        if change_id > last_change_id + 1 {
+            // an earlier change was broadcast before we subscribed and committed after
+            // we read: it is in neither, do not continue past it
+            warn!(sub_id = %matcher.id(), "missed changes between {last_change_id:?} and {change_id:?} while catching up, ending subscriber stream");
+            _ = evt_tx
+                .send(error_to_query_event_bytes_with_meta(
+                    &mut buf,
+                    format!("missed changes between {last_change_id} and {change_id}"),
+                ))
+                .await;
+            return;
+        }
         if change_id > last_change_id {
             info!(sub_id = %matcher.id(), "change was more recent, sending!");
             if let Err(_e) = evt_tx
@@ -629,6 +641,16 @@ pub async fn catch_up_sub(
 
     while let Some((event_buf, change_id)) = queue_rx.recv().await {
         info!(sub_id = %matcher.id(), "processing buffered change, id: {change_id:?} (last change id: {last_change_id:?})");
+        if change_id > last_change_id + 1 {
+            warn!(sub_id = %matcher.id(), "missed changes between {last_change_id:?} and {change_id:?} while catching up, ending subscriber stream");
+            _ = evt_tx
+                .send(error_to_query_event_bytes_with_meta(
+                    &mut buf,
+                    format!("missed changes between {last_change_id} and {change_id}"),
+                ))
+                .await;
+            return;
+        }
         if change_id > last_change_id {
             info!(sub_id = %matcher.id(), "change was more recent, sending!");
             if let Err(_e) = evt_tx
